@@ -1,29 +1,17 @@
 //! C06 – congestion windows stay in range and move in the right direction.
-use srtla_core::connection::CongestionControl;
+//!
+//! One-step inductive harnesses: from an ARBITRARY congestion state (every field a solver
+//! variable, window anywhere in [1000, 60000], in-flight anywhere in 0..=i32::MAX) each real
+//! mutator is run once and the range / direction / fast-recovery rules are asserted.  Because the
+//! pre-state is unconstrained apart from the range invariant, and every harness re-establishes
+//! that invariant, the facts hold along histories of any length.
+use srtla_core::connection::{CongestionControl, LinkPhase, SrtlaConnection};
 
-use crate::util::no_format;
+use crate::util::*;
 
 const WMIN: i32 = 1000;
 const WMAX: i32 = 60000;
-
-fn any_cc() -> CongestionControl {
-    CongestionControl {
-        nak_count: kani::any(),
-        last_nak_time_ms: kani::any(),
-        last_window_increase_ms: kani::any(),
-        consecutive_acks_without_nak: kani::any(),
-        fast_recovery_mode: kani::any(),
-        fast_recovery_start_ms: kani::any(),
-        nak_burst_count: kani::any(),
-        nak_burst_start_time_ms: kani::any(),
-    }
-}
-
-fn any_window() -> i32 {
-    let w: i32 = kani::any();
-    kani::assume(w >= WMIN && w <= WMAX);
-    w
-}
+const WDEF: i32 = 20000;
 
 #[kani::proof]
 #[kani::stub(alloc::fmt::format, no_format)]
@@ -45,4 +33,230 @@ fn c06_nak_step() {
     }
     kani::cover!(!fr0 && cc.fast_recovery_mode, "fast recovery entered");
     kani::cover!(w == WMIN && w0 == WMIN, "NAK at the floor");
+}
+
+fn any_in_flight() -> i32 {
+    let f: i32 = kani::any();
+    kani::assume(f >= 0);
+    f
+}
+
+#[kani::proof]
+fn c06_ack_classic_step() {
+    let mut cc = any_cc();
+    let cc0 = cc.clone();
+    let mut w = any_window();
+    let w0 = w;
+    let inf = any_in_flight();
+    cc.handle_srtla_ack_specific_classic(&mut w, inf, kani::any(), "");
+    assert!(w >= WMIN && w <= WMAX, "window in range after classic ACK");
+    assert!(w >= w0, "an ACK never decreases the window");
+    // reference rule: +29 iff in_flight*1000 > window (in unbounded integers), capped at 60000
+    let grow = (inf as i64) * 1000 > w0 as i64;
+    let expect = if grow { core::cmp::min(w0 + 29, WMAX) } else { w0 };
+    assert!(w == expect, "classic ACK: +29 iff in_flight x 1000 > window, capped");
+    assert!(cc.fast_recovery_mode == cc0.fast_recovery_mode, "classic ACK leaves fast-recovery flag alone");
+    kani::cover!(grow && w0 + 29 > WMAX, "classic ACK growth capped");
+    kani::cover!(inf > i32::MAX / 1000, "in-flight large enough to overflow a naive multiply");
+}
+
+#[kani::proof]
+fn c06_ack_enhanced_step() {
+    let mut cc = any_cc();
+    let mut w = any_window();
+    let w0 = w;
+    let fr0 = cc.fast_recovery_mode;
+    let inf = any_in_flight();
+    cc.handle_srtla_ack_enhanced(&mut w, inf, "", kani::any());
+    assert!(w >= WMIN && w <= WMAX, "window in range after enhanced ACK");
+    assert!(w >= w0, "an ACK never decreases the window");
+    let grow = (inf as i64) * 1000 > w0 as i64;
+    let expect = if grow { core::cmp::min(w0 + 29, WMAX) } else { w0 };
+    assert!(w == expect, "enhanced ACK: same growth rule as classic");
+    if fr0 && !cc.fast_recovery_mode {
+        assert!(w >= 12000, "fast recovery left only at window >= 12000");
+    }
+    if !fr0 {
+        assert!(!cc.fast_recovery_mode, "an ACK never enters fast recovery");
+    }
+    kani::cover!(fr0 && !cc.fast_recovery_mode, "fast recovery left by ACK");
+    kani::cover!(fr0 && cc.fast_recovery_mode && w > w0, "still in fast recovery while growing");
+}
+
+#[kani::proof]
+#[kani::stub(alloc::fmt::format, no_format)]
+fn c06_recovery_step() {
+    let mut cc = any_cc();
+    let mut w = any_window();
+    let w0 = w;
+    let fr0 = cc.fast_recovery_mode;
+    let connected: bool = kani::any();
+    let vel: f64 = kani::any(); // any bit pattern: NaN, +-inf, subnormals included
+    let now: u64 = kani::any();
+    cc.perform_window_recovery(&mut w, connected, vel, "", now);
+    assert!(w >= WMIN && w <= WMAX, "window in range after time-based recovery");
+    assert!(w >= w0, "time-based recovery never decreases the window");
+    assert!(w - w0 <= 120, "one recovery tick adds at most 2 x 30 x 2");
+    if !connected {
+        assert!(w == w0, "no recovery on a disconnected link");
+    }
+    if fr0 && !cc.fast_recovery_mode {
+        assert!(w >= 12000, "fast recovery left only at window >= 12000");
+    }
+    if !fr0 {
+        assert!(!cc.fast_recovery_mode, "recovery never enters fast recovery");
+    }
+    kani::cover!(w > w0 && vel > 2.0, "velocity-gated increment");
+    kani::cover!(w == WMAX && w0 < WMAX, "recovery capped at the maximum");
+    kani::cover!(fr0 && !cc.fast_recovery_mode, "fast recovery left by recovery tick");
+    kani::cover!(vel != vel && w > w0, "NaN velocity");
+}
+
+/// Through the connection API: earned SRTLA ACK / NAK / global increment on a link whose log
+/// holds the sequence number (or not), both modes.
+#[kani::proof]
+#[kani::unwind(4)]
+#[kani::stub(alloc::fmt::format, no_format)]
+fn c06_conn_events_step() {
+    let mut c = any_conn(1, SYM_INT);
+    // up to two outstanding packets
+    let s1: i32 = kani::any();
+    let s2: i32 = kani::any();
+    let n: u8 = kani::any();
+    kani::assume(n <= 2 && s1 != s2);
+    if n >= 1 {
+        c.vh_packet_log_mut().insert(s1, kani::any());
+    }
+    if n >= 2 {
+        c.vh_packet_log_mut().insert(s2, kani::any());
+    }
+    c.in_flight_packets = n as i32;
+    let w0 = c.window;
+    let fr0 = c.vh_congestion().fast_recovery_mode;
+    let seq: i32 = kani::any();
+    let now = any_time();
+    let ev: u8 = kani::any();
+    kani::assume(ev < 4);
+    let mut earned = false;
+    match ev {
+        0 => {
+            let found = c.handle_srtla_ack_specific(seq, true, now);
+            earned = found;
+            assert!(c.window >= w0 && c.window <= WMAX, "classic earned ACK: in range, not decreasing");
+            assert!(found == ((n >= 1 && seq == s1) || (n >= 2 && seq == s2)), "ACK earned iff the link held the packet");
+            if !found {
+                assert!(c.window == w0, "unearned ACK leaves the window alone");
+            }
+        }
+        1 => {
+            let found = c.handle_srtla_ack_specific(seq, false, now);
+            assert!(c.window >= w0 && c.window <= WMAX, "enhanced earned ACK: in range, not decreasing");
+            if !found {
+                assert!(c.window == w0 && c.vh_congestion().fast_recovery_mode == fr0, "unearned ACK changes nothing");
+            }
+            if fr0 && !c.vh_congestion().fast_recovery_mode {
+                assert!(c.window >= 12000, "fast recovery left only at >= 12000 (connection API)");
+            }
+        }
+        2 => {
+            let found = c.handle_nak(seq, now);
+            assert!(c.window <= w0 && c.window >= WMIN, "NAK: in range, not increasing");
+            if found {
+                assert!(c.window == core::cmp::max(w0 - 100, WMIN), "charged NAK: -100 floored");
+            } else {
+                assert!(c.window == w0 && c.vh_congestion().fast_recovery_mode == fr0, "uncharged NAK changes nothing");
+            }
+            if !fr0 && c.vh_congestion().fast_recovery_mode {
+                assert!(c.window <= 2000, "fast recovery entered only at <= 2000 (connection API)");
+            }
+        }
+        _ => {
+            let heard = c.last_received.is_some();
+            let conn = c.connected;
+            c.handle_srtla_ack_global();
+            let expect = if conn && heard { core::cmp::min(w0 + 1, WMAX) } else { w0 };
+            assert!(c.window == expect, "global +1 iff connected and ever heard, capped");
+            assert!(c.vh_congestion().fast_recovery_mode == fr0, "global increment leaves fast-recovery flag alone");
+        }
+    }
+    assert!(c.window >= WMIN && c.window <= WMAX, "window in range after any connection event");
+    kani::cover!(ev == 0 && earned, "classic earned ACK (growth itself needs in-flight > window/1000: see c06_ack_classic_step)");
+    kani::cover!(ev == 2 && c.window < w0, "charged NAK");
+    kani::cover!(ev == 3 && c.window == WMAX && w0 == WMAX, "global increment at the cap");
+}
+
+#[kani::proof]
+#[kani::unwind(4)]
+fn c06_resets() {
+    // initial value
+    let fresh = SrtlaConnection::new_registering(kani::any(), String::new(), std::net::IpAddr::V4(std::net::Ipv4Addr::LOCALHOST), any_time());
+    assert!(fresh.window == WDEF, "a new link starts at 20000");
+    assert!(!fresh.vh_congestion().fast_recovery_mode, "a new link is not in fast recovery");
+
+    let mut c = any_conn(1, SYM_INT);
+    let s1: i32 = kani::any();
+    if kani::any() {
+        c.vh_packet_log_mut().insert(s1, kani::any());
+    }
+    let which: bool = kani::any();
+    if which {
+        c.mark_for_recovery();
+    } else {
+        c.reset_for_reconnect(any_time());
+        assert!(!c.vh_congestion().fast_recovery_mode, "reconnect reset leaves fast recovery");
+    }
+    assert!(c.window == WDEF, "teardown returns the window to 20000");
+    assert!(c.in_flight_packets == 0 && c.vh_packet_log().is_empty(), "teardown clears in-flight");
+    assert!(!c.connected && matches!(c.vh_phase(), LinkPhase::Registering), "teardown leaves the link registering");
+    kani::cover!(which, "mark_for_recovery");
+    kani::cover!(!which, "reset_for_reconnect");
+}
+
+/// Bounded symbolic history (thorough tier): 3 events from an arbitrary state, checking the
+/// fast-recovery hysteresis as a trace property (belt and braces over the one-step harnesses).
+#[kani::proof]
+#[kani::unwind(4)]
+#[kani::stub(alloc::fmt::format, no_format)]
+fn c06_history_3() {
+    let mut cc = any_cc();
+    let mut w = any_window();
+    let mut now = any_time();
+    let mut i = 0;
+    while i < 3 {
+        let w0 = w;
+        let fr0 = cc.fast_recovery_mode;
+        let dt: u32 = kani::any();
+        now += dt as u64;
+        let ev: u8 = kani::any();
+        kani::assume(ev < 4);
+        let mut reset = false;
+        match ev {
+            0 => {
+                cc.handle_nak(&mut w, kani::any(), "", now);
+                assert!(w <= w0, "history: NAK never increases");
+            }
+            1 => {
+                cc.handle_srtla_ack_enhanced(&mut w, any_in_flight(), "", now);
+                assert!(w >= w0, "history: ACK never decreases");
+            }
+            2 => {
+                cc.perform_window_recovery(&mut w, kani::any(), kani::any(), "", now);
+                assert!(w >= w0, "history: recovery never decreases");
+            }
+            _ => {
+                cc.reset();
+                w = WDEF;
+                reset = true;
+            }
+        }
+        assert!(w >= WMIN && w <= WMAX, "history: window in range");
+        if !fr0 && cc.fast_recovery_mode {
+            assert!(w <= 2000, "history: fast recovery entered only at <= 2000");
+        }
+        if fr0 && !cc.fast_recovery_mode {
+            assert!(w >= 12000 || reset, "history: fast recovery left only at >= 12000 or on reset");
+        }
+        i += 1;
+    }
+    kani::cover!(w == WMAX, "history reaches the cap");
 }
